@@ -1,5 +1,6 @@
 import DoviModel.Model.Generate
 import DoviModel.Proofs.EditGenProof
+import DoviModel.Proofs.GenerateEntryProof
 /-! # C10 — generator output matches its config -/
 namespace Dovi.C10
 open Dovi Dovi.Gen
@@ -434,4 +435,186 @@ def v40Cfg (bs : List Block) : Config := { length := 1, shots := [{ duration := 
 /-- the property text's "an unsupported L8 length currently panics": not in this model — `generate_rpu_list`
 never panics (`gen_no_panic`) and the writer rejects the length with an error (`validate_length` runs first) -/
 example : generate (v40Cfg [{ level := 8, length := 11, vals := [1] }]) none none = .error := by decide
+/-! # The entry point `Gen.generate` (helper lemmas and definitions: `Proofs/GenerateEntryProof.lean`)
+
+Vocabulary (`Dovi.GenerateEntryProof`):
+* `durSum shots` — the sum of the shot durations (as the model computes it, a left fold).
+* `baseShots c` — `c.shots`, or the single default shot `{ start := 0, duration := c.length }` when there are none.
+* `clampMode c` — `c.l1AvgCmv40.getD c.cmv40`; `clampShot cm s` — `s` with `clampL1 cm` mapped over its blocks and
+  over the blocks of all its frame edits.
+* `normalize c po lo` — the config handed to `generate_rpu_list`: `length` defaulted from the shots when it is 0,
+  default shot added, `-p` / `--long-play-mode` overrides applied, `l1AvgCmv40` fixed, `fixup_l1` run
+  (its fields are spelled out by `generate_normalize_fields`).
+* `L1Legal cm v` — `v` has 3 values, `0 ≤ v₀ ≤ 12`, `2081 ≤ v₁ ≤ 4095`, `(if cm then 1229 else 819) ≤ v₂ ≤ v₁ - 1`.
+-/
+open Dovi.GenerateEntryProof
+
+/-- **`generate` unfolded**: an error when there is neither a length nor a shot, else `generate_rpu_list` on the
+normalized config followed by the writer -/
+theorem generate_eq (c : Config) (po : Option Profile) (lo : Option Bool) :
+    generate c po lo =
+      if c.length = 0 ∧ c.shots.isEmpty = true then .error
+      else (generateList (normalize c po lo)).bind writeAll :=
+  generate_unfold c po lo
+
+/-- what `normalize` does to each field of the config -/
+theorem generate_normalize_fields (c : Config) (po : Option Profile) (lo : Option Bool) :
+    (normalize c po lo).cmv40 = c.cmv40 ∧
+    (normalize c po lo).profile = po.getD c.profile ∧
+    (normalize c po lo).longPlay = lo.getD c.longPlay ∧
+    (normalize c po lo).length = (if c.length = 0 ∧ c.shots.isEmpty = false then durSum c.shots else c.length) ∧
+    (normalize c po lo).sourceMinPq = c.sourceMinPq ∧ (normalize c po lo).sourceMaxPq = c.sourceMaxPq ∧
+    (normalize c po lo).level5 = c.level5 ∧ (normalize c po lo).level6 = c.level6 ∧
+    (normalize c po lo).l1AvgCmv40 = some (clampMode c) ∧
+    (normalize c po lo).defaults = c.defaults.map (clampL1 (clampMode c)) ∧
+    (normalize c po lo).shots = (baseShots c).map (clampShot (clampMode c)) :=
+  normalize_fields c po lo
+
+/-- **`generate` writes exactly `length` RPUs, the sum of the shot durations** (of the normalized config; the
+clamp does not change durations, so that is the sum over the config's shots or the default shot) -/
+theorem generate_length (c : Config) (po : Option Profile) (lo : Option Bool) (out : List Bytes)
+    (h : generate c po lo = .ok out) :
+    out.length = (normalize c po lo).length ∧
+    (normalize c po lo).length = durSum (normalize c po lo).shots ∧
+    durSum (normalize c po lo).shots = durSum (baseShots c) := by
+  obtain ⟨a, b⟩ := generate_len c po lo out h
+  exact ⟨a, b, durSum_normalize c po lo⟩
+
+/-- neither `length` nor shots: an error -/
+theorem generate_no_input (c : Config) (po : Option Profile) (lo : Option Bool)
+    (hl : c.length = 0) (hs : c.shots.isEmpty = true) : generate c po lo = .error := by
+  rw [generate_eq, if_pos ⟨hl, hs⟩]
+
+/-- `length` given, shots given, and they disagree: an error -/
+theorem generate_inconsistent (c : Config) (po : Option Profile) (lo : Option Bool)
+    (hl : c.length ≠ 0) (hs : c.shots.isEmpty = false) (hne : c.length ≠ durSum c.shots) :
+    generate c po lo = .error := by
+  rw [generate_eq, if_neg (fun h => hl h.1)]
+  have h1 : (normalize c po lo).length = c.length := by
+    rw [(normalize_fields c po lo).2.2.2.1, if_neg (fun h => hl h.1)]
+  have h2 : durSum (normalize c po lo).shots = durSum c.shots := by
+    rw [durSum_normalize]; unfold baseShots; rw [hs]; rfl
+  rw [generateList_length_mismatch _ (by rw [h1, h2]; exact hne)]; rfl
+
+/-- `length` omitted (0), shots given: the output has one RPU per unit of shot duration -/
+theorem generate_length_from_shots (c : Config) (po : Option Profile) (lo : Option Bool) (out : List Bytes)
+    (hl : c.length = 0) (hs : c.shots.isEmpty = false) (h : generate c po lo = .ok out) :
+    out.length = durSum c.shots := by
+  rw [(generate_length c po lo out h).1, (normalize_fields c po lo).2.2.2.1, if_pos ⟨hl, hs⟩]
+
+/-- no shots, `length = n > 0`: the output has `n` RPUs (one default shot) -/
+theorem generate_length_no_shots (c : Config) (po : Option Profile) (lo : Option Bool) (out : List Bytes)
+    (hs : c.shots.isEmpty = true) (h : generate c po lo = .ok out) :
+    out.length = c.length ∧ 0 < c.length := by
+  have hpos : 0 < c.length := by
+    rcases Nat.eq_zero_or_pos c.length with h0 | h0
+    · rw [generate_no_input c po lo h0 hs] at h; cases h
+    · exact h0
+  refine ⟨?_, hpos⟩
+  rw [(generate_length c po lo out h).1, (normalize_fields c po lo).2.2.2.1, if_neg]
+  rintro ⟨_, h2⟩; rw [hs] at h2; cases h2
+
+/-- **L1 values are clamped**: in every frame that `generate` produces (i.e. after `fixup_l1`), every L1 block has
+its three values in the legal ranges — whether it came from a frame edit, a shot or the defaults -/
+theorem gen_l1_clamped (c : Config) (po : Option Profile) (lo : Option Bool) (l : List Rpu)
+    (h : generateList (normalize c po lo) = .ok l) :
+    ∀ r ∈ l, ∀ d, r.vdr_dm_data = some d → ∀ x ∈ d.levelBlocks 1,
+      x.vals.length = 3 ∧ 0 ≤ x.vals.getD 0 0 ∧ x.vals.getD 0 0 ≤ 12 ∧
+      2081 ≤ x.vals.getD 1 0 ∧ x.vals.getD 1 0 ≤ 4095 ∧
+      (if c.l1AvgCmv40.getD c.cmv40 then 1229 else 819) ≤ x.vals.getD 2 0 ∧
+      x.vals.getD 2 0 ≤ x.vals.getD 1 0 - 1 :=
+  fun r hr d hd x hx => normalize_l1 c po lo l h r hr d hd x hx
+
+/-- **provenance**: every block of every generated frame is a block of a frame edit or of a shot of the config, a
+default block, a static block, or the initial L254 — nothing else is ever stored -/
+theorem gen_block_origin (c : Config) (l : List Rpu) (h : generateList c = .ok l) (r : Rpu) (hr : r ∈ l)
+    (d : DmData) (hd : r.vdr_dm_data = some d) (x : Block) (hx : x ∈ d.levelBlocks x.level) :
+    (∃ s ∈ c.shots, (∃ e ∈ s.edits, x ∈ e.blocks) ∨ x ∈ s.blocks) ∨
+      x ∈ defaultBlocks c ∨ x ∈ statics c ∨ x = l254 :=
+  frame_block_origin c l h r hr d hd x hx
+
+/-- **the overrides win**: the frames `generate` writes carry the markers of the `-p` profile when given (else the
+config's), and with `--long-play-mode true` (or `long_play_mode` in the config and no override) every frame has the
+scene-refresh flag set -/
+theorem generate_overrides (c : Config) (po : Option Profile) (lo : Option Bool) (l : List Rpu)
+    (h : generateList (normalize c po lo) = .ok l) : ∀ r ∈ l,
+    r.dovi_profile = (match po.getD c.profile with | .p5 => 5 | _ => 8) ∧
+    r.header = (match po.getD c.profile with
+                | .p5 => { p8DefaultHeader with vdr_rpu_profile := 0, bl_video_full_range_flag := true }
+                | _ => p8DefaultHeader) ∧
+    r.rpu_data_mapping = some (match po.getD c.profile with | .p84 => profile84Mapping | _ => p81Mapping) ∧
+    (∃ d, r.vdr_dm_data = some d ∧ d.cmv40.isSome = c.cmv40 ∧
+      ∀ j, j ≠ 29 → j ≠ 30 → d.main[j]? = (dmMainOf (po.getD c.profile))[j]?) ∧
+    (lo.getD c.longPlay = true → flagOf r = some 1) := by
+  intro r hr
+  obtain ⟨f1, f2, f3, _⟩ := normalize_fields c po lo
+  obtain ⟨m1, m2, m3, _, _, _, d, hd, _, _, _, _, _, m4, _, m5, _⟩ := gen_markers _ l h r hr
+  rw [f2] at m1 m2 m3 m5
+  rw [f1] at m4
+  refine ⟨m1, m2, m3, ⟨d, hd, m4, m5⟩, ?_⟩
+  intro hlp
+  have hc := gen_scene_cuts _ l h
+  rw [f3] at hc
+  have : flagOf r ∈ l.map flagOf := List.mem_map_of_mem hr
+  rw [hc, List.mem_flatMap] at this
+  obtain ⟨s, _, hm⟩ := this
+  rw [List.mem_map] at hm
+  obtain ⟨i, _, hi⟩ := hm
+  rw [← hi, if_pos (.inr hlp)]
+
+/-- **`generate` panics only inside the RPU writer**, on a frame that `generate_rpu_list` produced (everything
+before the writer — normalisation, clamp, block replacement — returns a value or an error) -/
+theorem generate_panics_only_in_writer (c : Config) (po : Option Profile) (lo : Option Bool)
+    (h : generate c po lo = .panic) :
+    ∃ l r, generateList (normalize c po lo) = .ok l ∧ r ∈ l ∧ writeRpu r = .panic :=
+  generate_panic c po lo h
+
+/-- a successful `generate` wrote every frame of `generate_rpu_list (normalize …)`, in order, one output each -/
+theorem generate_ok_iff (c : Config) (po : Option Profile) (lo : Option Bool) (out : List Bytes) :
+    generate c po lo = .ok out ↔
+      ¬ (c.length = 0 ∧ c.shots.isEmpty = true) ∧
+      ∃ l, generateList (normalize c po lo) = .ok l ∧ writeAll l = .ok out :=
+  generate_ok c po lo out
+
+/-- **the writer never panics on a generated frame**: for every frame of `generate_rpu_list` (any config),
+`write_rpu` returns the bytes or an error — in particular a block with an unsupported L8/L9/L10 length is
+rejected by `validate_length` before `required_bits` can be reached -/
+theorem gen_writer_no_panic (c : Config) (l : List Rpu) (h : generateList c = .ok l) (r : Rpu) (hr : r ∈ l) :
+    writeRpu r ≠ .panic :=
+  gen_writeRpu_ne_panic c l h r hr
+
+/-- **`generate` never panics**, for every config and every pair of overrides: it returns the RPUs or an error -/
+theorem generate_no_panic (c : Config) (po : Option Profile) (lo : Option Bool) : generate c po lo ≠ .panic :=
+  generate_ne_panic c po lo
+
+/-! ## non-vacuity and the audit's counter-example for the entry point -/
+
+def l1Raw : Block := { level := 1, length := 5, vals := [50, 100, 5000] }
+/-- one shot, one frame, an L1 block with all three values out of range -/
+def l1Cfg : Config := { length := 1, shots := [{ duration := 1, blocks := [l1Raw] }] }
+
+/-- `generate_rpu_list` alone (no `fixup_l1`) keeps the out-of-range L1 block verbatim … -/
+example : view l1Cfg 1 = some [(some 1, [l1Raw])] := by decide
+/-- … and the writer then rejects the frame (L1 `validate`) -/
+example : (generateList l1Cfg).bind writeAll = .error := by decide
+/-- `generate` on the same config clamps the block (`normalize` runs `fixup_l1`) … -/
+example : view (normalize l1Cfg none none) 1 =
+    some [(some 1, [{ level := 1, length := 5, vals := [12, 2081, 2080] }])] := by decide
+/-- … and succeeds: the hypotheses `generate … = .ok out` / `generateList (normalize …) = .ok l` are satisfiable -/
+example : ∃ out, generate l1Cfg none none = .ok out := ⟨_, rfl⟩
+example : ∃ l, generateList (normalize l1Cfg none none) = .ok l := ⟨_, rfl⟩
+
+/-- `exCfg` with both overrides: 3 RPUs, every frame flagged (long-play), the in-range L1 block unchanged -/
+example : ∃ out, generate exCfg (some .p5) (some true) = .ok out ∧ out.length = 3 := ⟨_, rfl, rfl⟩
+example : view (normalize exCfg (some .p5) (some true)) 1 =
+    some [(some 1, [{ level := 1, length := 5, vals := [0, 3000, 1500] }]),
+          (some 1, [{ level := 1, length := 5, vals := [0, 3000, 1500] }]), (some 1, [])] := by decide
+/-- `length` omitted: taken from the shots -/
+example : ∃ out, generate { exCfg with length := 0 } none none = .ok out ∧ out.length = 3 := ⟨_, rfl, rfl⟩
+/-- no shots: one default shot of `length` frames -/
+example : ∃ out, generate { length := 4 } none none = .ok out ∧ out.length = 4 := ⟨_, rfl, rfl⟩
+/-- `length` and shots disagree / neither given: errors -/
+example : generate { exCfg with length := 4 } none none = .error := by decide
+example : generate {} none none = .error := by decide
+
 end Dovi.C10
